@@ -307,8 +307,32 @@ pub fn gen_stmt(r: &mut Rng, tabs: &[Tab], st: &State, j: usize, len: usize) -> 
         let c = tb.cols.len() - 1;
         return Stmt::Update { t, asg: vec![(c, Expr::Lit(if r.chance(1, 6) { None } else { Some(small(r)) }))], wh: key_pred(r, tabs, st, t) };
     }
-    if k < 90 {
+    if k < 86 {
         return Stmt::Delete { t, wh: key_pred(r, tabs, st, t) };
+    }
+    if k < 90 {
+        // INSERT INTO t SELECT * FROM src: mostly from a table with the same number of columns
+        let same: Vec<usize> = live.iter().cloned().filter(|x| tabs[*x].cols.len() == tb.cols.len() && (*x != t || r.chance(1, 4))).collect();
+        let src = if !same.is_empty() && r.chance(9, 10) { *r.pick(&same) } else { *r.pick(&live) };
+        // the plain form may take the bulk-transfer path, whose primary-key check depends on the
+        // append-mode tracker (C10): only when no key can collide
+        let collide = match &tb.pk {
+            Some(pk) if tabs[src].cols.len() == tb.cols.len() => {
+                let mut keys: Vec<Vec<V>> = rows_of(st, t).iter().map(|x| proj(pk, x)).collect();
+                let mut c = false;
+                for x in rows_of(st, src) {
+                    let k2 = proj(pk, x);
+                    if keys.contains(&k2) || k2.iter().any(|v| v.is_none()) {
+                        c = true;
+                    }
+                    keys.push(k2);
+                }
+                c
+            }
+            _ => false,
+        };
+        let simple = !collide && r.chance(2, 3);
+        return Stmt::InsertSelect { dst: t, src, simple, sel: vec![] };
     }
     if k < 95 {
         return Stmt::Truncate { t, cascade: r.chance(1, 2) };
@@ -514,6 +538,25 @@ pub fn scripted(k: usize) -> Option<(&'static str, Vec<Tab>, Vec<Stmt>)> {
             t2.fks.push(fk(&[1], 1, &[0], Cascade, Cascade, How::Create));
             ("cascade-chain-exact", vec![t0, t1, t2], vec![ins(0, &[&[1, 0], &[2, 0]]), ins(1, &[&[1, 1], &[2, 1], &[3, 2]]), ins(2, &[&[1, 1], &[2, 3], &[3, -1]]),
                  Stmt::Update { t: 0, asg: vec![(0, Expr::Add(0, 10))], wh: None }, del_eq(0, 0, 11)])
+        }
+        20 => {
+            let t0 = tab(0, 2, Some(vec![0]));
+            let mut t1 = tab(1, 2, Some(vec![0]));
+            t1.fks.push(fk(&[1], 0, &[0], Cascade, Cascade, How::Create));
+            let t2 = tab(2, 2, Some(vec![0]));
+            let sel = |dst: usize, src: usize, simple: bool| Stmt::InsertSelect { dst, src, simple, sel: vec![] };
+            ("insert-select", vec![t0, t1, t2], vec![ins(0, &[&[1, 0], &[2, 0]]), ins(2, &[&[10, 1], &[11, 5], &[12, 2]]),
+                 sel(1, 2, true), sel(1, 2, false), del_eq(2, 0, 11), Stmt::Delete { t: 1, wh: None }, sel(1, 2, true),
+                 sel(1, 1, true), sel(2, 1, false), sel(0, 1, true)])
+        }
+        21 => {
+            // bulk transfer into a self-referencing table: a row may reference an earlier row of the same statement
+            let mut t0 = tab(0, 2, Some(vec![0]));
+            t0.fks.push(fk(&[1], 0, &[0], NoAction, NoAction, How::Alter));
+            let t1 = tab(1, 2, Some(vec![0]));
+            let sel = |dst: usize, src: usize, simple: bool| Stmt::InsertSelect { dst, src, simple, sel: vec![] };
+            ("insert-select-self-ref", vec![t0, t1], vec![ins(1, &[&[1, -1], &[2, 1], &[3, 2]]), sel(0, 1, false), sel(0, 1, true),
+                 del_eq(0, 0, 3), ins(1, &[&[4, 9]]), Stmt::Delete { t: 0, wh: Some(Pred::Cmp(0, Op::Ge, 2)) }, sel(0, 1, true)])
         }
         _ => return None,
     })
